@@ -409,3 +409,15 @@ Proof.
   - vm_compute. reflexivity.
   - split; [exact Hparse|]. intros i f Hi Hf Hname. apply (Hb i f Hi Hf). rewrite Hname. reflexivity.
 Qed.
+
+(* the same flip for the MIXED layout (one positional entry + one key;value pair): the two-entry
+   cell `n|n;5` is read as the single pair  n = [n, 5].   class AN: a: str = ""; n: int = 0 *)
+Definition tAN : ty := TModel [(s!"a", (TStr, Some (VStr []))); (s!"n", (TInt, Some (VInt 0)))] [] [].
+Definition rmAN : rowmodel :=
+  {| rm_ty := TModel [(s!"m", (tAN, Some (VModel [(s!"a", VStr []); (s!"n", VInt 0)])))] [] []; rm_ctx := None |}.
+
+Example positional_mixed_flip_witness :
+  parse_row rmAN [(s!"m.a", s!"n"); (s!"m.n", s!"5")] = Ok (VModel [(s!"m", VModel [(s!"a", VStr s!"n"); (s!"n", VInt 5)])])
+  /\ parse_row rmAN [(s!"m", s!"n|n;5")] = Err EValue
+  /\ parse_row rmAN [(s!"m", s!"q|n;5")] = Ok (VModel [(s!"m", VModel [(s!"a", VStr s!"q"); (s!"n", VInt 5)])]).
+Proof. repeat split; vm_compute; reflexivity. Qed.
